@@ -212,12 +212,12 @@ class Runner:
             await c.send(b'z SELECT INBOX\r\n')
         return c
 
-    async def line(self, c, state, tag, body, family):
+    async def line(self, c, state, tag, body, family, limit=3.0):
         """send one command line (answering continuation requests), judge the reply; returns False if the connection must be replaced"""
         part = self.part
         data = tag + b' ' + body + b'\r\n'
         case = dict(state=state, backend=self.backend, line=data.decode('latin1')[:600], family=family, length=len(data))
-        signal.setitimer(signal.ITIMER_REAL, 3.0)
+        signal.setitimer(signal.ITIMER_REAL, limit)
         try:
             raw = await c.send(data)
             rounds = 0
@@ -241,7 +241,7 @@ class Runner:
                     raw = await c.send(b'\r\n')
         except Hang:
             signal.setitimer(signal.ITIMER_REAL, 0)
-            part.violation('monitor', f'the server does not return from processing the line within 3 s (event loop blocked): state {state}, {data[:200]!r}', case, signature='hang:' + family)
+            part.violation('monitor', f'the server does not return from processing the line within {limit:g} s (event loop blocked): state {state}, {data[:200]!r}', case, signature='hang:' + family)
             raise
         finally:
             signal.setitimer(signal.ITIMER_REAL, 0)
@@ -421,6 +421,32 @@ async def header_sweep(part, r, backend, share, nshares):
                         except Exception:
                             pass
                         c = await run.connect(2)
+        await c.eof()
+    finally:
+        if run.base:
+            backends.rmtree(run.base)
+
+
+async def deep_names(part, r, backend):
+    """a hierarchy deeper than any recursion limit: whatever walks mailbox names level by level must do it in a loop"""
+    run = Runner(part, r, backend)
+    await run.start()
+    try:
+        c = await run.connect(2)
+        depth = r.choice([1050, 1200])
+        deep = b'/'.join([b'a'] * depth)
+        for k, body in enumerate((b'CREATE ' + deep, b'LIST "" *', b'LIST "" %', b'LIST "" "%/%"', b'SUBSCRIBE ' + deep, b'LSUB "" *', b'STATUS ' + deep + b' (MESSAGES)', b'LIST "" ' + deep,
+                                  b'RENAME a b', b'LIST "" *', b'UNSUBSCRIBE ' + deep, b'DELETE b/' + deep[2:], b'DELETE ' + deep, b'LIST "" *')):
+            if c.task.done():
+                await c.finish()
+                c = await run.connect(2)
+            # the listing of n nested levels is n names of up to 2n bytes - megabytes, and legitimately seconds
+            if not await run.line(c, 2, b'd%d' % k, body, 'deep-names:' + body.split(b' ')[0].decode(), limit=30.0):
+                try:
+                    await c.finish()
+                except Exception:
+                    pass
+                c = await run.connect(2)
         await c.eof()
     finally:
         if run.base:
@@ -641,6 +667,13 @@ def worker(job):
         except Exception as exc:   # noqa
             part.violation('monitor', f'C06 header sweep ({backend}): {type(exc).__name__}: {exc}', dict(seed=seed, traceback=traceback.format_exc()[-1200:]),
                            signature=f'exception:{type(exc).__name__}')
+    for backend in (('dict', 'maildir') if share % 4 == 0 else ()):
+        try:
+            asyncio.run(deep_names(part, r, backend))
+        except Hang:
+            pass
+        except Exception as exc:   # noqa
+            part.violation('monitor', f'C06 deep names ({backend}): {type(exc).__name__}: {exc}', dict(seed=seed, traceback=traceback.format_exc()[-1200:]), signature=f'exception:{type(exc).__name__}')
     for backend in (['dict', 'maildir'] if seed % 2 == 0 else ['dict']):
         try:
             asyncio.run(fuzz_lines(part, r, backend, nlines if backend == 'dict' else nlines // 3))
